@@ -3,7 +3,6 @@
 use crate::router::{base::Router, segments::RouteSegments};
 use crate::fang::{Fang, BoxedFPC};
 use crate::fang::handler::{Handler, IntoHandler};
-use crate::response::Content;
 use crate::Ohkami;
 use std::sync::Arc;
 
@@ -300,10 +299,10 @@ const _: () = {
                         Handler::new(|_| Box::pin(async {
                             let mut res = crate::Response::OK();
                             {
-                                res.headers.set().ContentType(this.mime);
-                                res.content = Content::Payload({
+                                /* `set_payload` to set `Content-Length` as well as `Content-Type` */
+                                res.set_payload(this.mime, {
                                     let content: &'static [u8] = &this.content;
-                                    content.into()
+                                    content
                                 });
                             }
                             res
